@@ -88,6 +88,8 @@ def mk(kind, label):
     L = label
     if kind == "Q1":
         return EqIcon(L + "0", 0)
+    if kind == "S4":  # a selectable item taller than the smaller views, its cursor fixed on its first row
+        return urwid.SelectableIcon("\n".join(L + str(k) for k in range(4)), 0)
     if kind == "T1":
         return urwid.Text(L + "0")
     if kind == "T3":
@@ -464,7 +466,7 @@ def run(tier, R):
     lists = []
     for L in range(0, 3 if quick else 4):
         lists += list(itertools.product(KINDS, repeat=L))
-    lists += [("Q1", "Q1"), ("Q1", "T1", "Q1"), ("T1", "S1", "T3"), ("E5", "S1", "E2"), ("T3", "T3", "S1", "T1"), ("S1", "Z0", "S1"), ("E2", "T3", "E5", "S1", "T1"), ("C3", "S1", "C3")]
+    lists += [("T1", "T1", "S4"), ("T1", "S4", "T1"), ("Q1", "Q1"), ("Q1", "T1", "Q1"), ("T1", "S1", "T3"), ("E5", "S1", "E2"), ("T3", "T3", "S1", "T1"), ("S1", "Z0", "S1"), ("E2", "T3", "E5", "S1", "T1"), ("C3", "S1", "C3")]
     seen = set()
     for kl in lists:
         if kl in seen:
@@ -488,7 +490,7 @@ def run(tier, R):
         # two steps including the un-rendered pairs over the lists of <= 2 items
         SEQ_DEPTH[0] = -2
         res = R.bfs(Spec(cfgs), depth=2, max_states=4_000_000)
-        deep = [c for c in cfgs if c[0] == "focus" and c[2] == (W, 3) and (len(c[1]) <= 2 or c[1] in lists[-8:])]
+        deep = [c for c in cfgs if c[0] == "focus" and c[2] == (W, 3) and (len(c[1]) <= 2 or c[1] in lists[-10:])]
         res3 = R.bfs(Spec(deep), depth=3, max_states=4_000_000)
         SEQ_DEPTH[0] = 0
         small = [c for c in cfgs if len(c[1]) <= 2]
